@@ -1072,6 +1072,8 @@ func init() {
 			r.importing = "C01"
 			checkBindingModes(r, prog, NewGA(prog, g.Tab), "c01") // the fold assumes each form sets exactly its names: `_` binds nothing
 		}
+		r.importing = "C05"
+		checkValueLookup(r, prog, a, "c05") // "absent S": the lookup says not-present exactly for a key missing from a map, at any depth of two or more
 		r.importing = "C18"
 		checkGetOpts(r, prog, a, "c18") // an evaluation starts without bindings, on a list of its own
 		r.importing = ""
